@@ -241,6 +241,19 @@ func main() {
 		pf, po := fx.Pick(rs, want)
 		ex("go_Pick "+recsL(rs)+" "+nn(uint64(want)), "("+rec(pf)+", "+recsL(po)+")")
 	}
+	for i := 0; i < 40; i++ {
+		w := fx.Wrap{Base: fx.Base{Code: r.Intn(20) - 5, Flag: r.Intn(2) == 0}, Items: ri(4, -3, 9)}
+		wr := func(w fx.Wrap) string {
+			return "(mk_T_Wrap (mk_T_Base " + z(w.Code) + " " + b(w.Flag) + ") " + intL(w.Items) + ")"
+		}
+		add := r.Intn(8)
+		pn, pw := fx.Promo(fx.Wrap{Base: w.Base, Items: append([]int{}, w.Items...)}, add)
+		ex("go_Promo "+wr(w)+" "+z(add), "("+z(pn)+", "+wr(pw)+")")
+		xs := ri(7, -9, 9)
+		ex("go_Evens "+intL(xs), intL(fx.Evens(xs)))
+		lim := r.Intn(30) - 5
+		ex("go_Bound "+intL(xs)+" "+z(lim), z(fx.Bound(xs, lim)))
+	}
 	// fuel exhaustion is reported, not papered over
 	ex("go_Walk 2%nat ([1; 65; 1; 66; 1; 67; 0]%N) (0)%Z", "None")
 	ex("go_WalkTwice 2%nat ([1; 65; 1; 66; 1; 67; 0]%N)", "None")
